@@ -201,6 +201,12 @@ func (e *BinaryOpExpr) checkWithCompares(ctx *CheckCtx) error {
 
 func (e *BinaryOpExpr) checkWithIn(ctx *CheckCtx) error {
 	ltype := e.Left.ReturnType()
+	switch ltype {
+	case TSTR, TNUMBER:
+	default:
+		// the evaluators only know how to look up texts and numbers
+		return NewSyntaxError(e.Left.GetPos(), "in operator only support string and number type")
+	}
 	switch r := e.Right.(type) {
 	case *ListExpr:
 		for _, expr := range r.List {
